@@ -247,7 +247,9 @@ impl<T: ContentType> State<T> {
                         header.properties,
                     )))
                 } else {
-                    let buf = Vec::with_capacity(header.body_size as usize);
+                    // The announced size comes from the peer: use it as a hint only, so an
+                    // absurd value cannot make the allocation panic or abort the process.
+                    let buf = Vec::with_capacity(std::cmp::min(header.body_size, 1 << 20) as usize);
                     Ok(Content::NeedMore(State::Body(start, header, buf)))
                 }
             }
